@@ -646,10 +646,37 @@ def buffer_oracle(c, p):
 ASSERT_TEXT = "_dbus_string_skip_blank"
 
 
+def recency_oracle(c, p):
+    """Spec.KeyringSpec, independent of the model: "cookies that are close to their deletion time should not be used for new
+    authentication operations ... generates a new cookie whenever the most recent cookie is older than 5 minutes" and cookies more
+    than 5 minutes in the future / 7 minutes in the past are deleted.  Judged on what the implementation sent: every challenge names
+    a cookie id; if that id stems from the prepared file (not created by the server during this conversation), some line spelling
+    that id must be younger than NEW_KEY_TIMEOUT and not future-dated beyond MAX_TIME_TRAVEL (wall-clock ages; +-5 s tolerance)."""
+    items = [it for it in key_items(c) if it[0] == "K"]
+    if not items or any(it[0] == "R" for it in key_items(c)):
+        return None
+    ages = {}
+    for it in items:
+        i = c_int(it[1])
+        if i is None:
+            return None
+        ages.setdefault(i, []).append(it[2])
+    for (cid, chal, cctx) in challenges(produced_output(c, p)):
+        if cid in ages and not any(-305 <= g <= 305 for g in ages[cid]):
+            ok_after = b"OK " in produced_output(c, p)
+            return ("the server issued a challenge for cookie %d, whose only lines in the keyring are %s seconds old (limit for new challenges: 300 s)%s"
+                    % (cid, ages[cid], " and later answered OK" if ok_after else ""))
+    return None
+
+
 def check_case(rep, known, c, r, p, ml, m, sres, lines, stats):
     """verdict rules for one case that ran to completion on both sides"""
     agree = common_part(r) == common_part(m)
     replay = {"impl_input": impl_line(c), "model_input": ml, "impl": r, "model": m, "spec": sres}
+    ro = recency_oracle(c, p)
+    if ro:
+        rep.violation("cookie recency rule broken on %s: %s" % (impl_line(c)[:300], ro), replay)
+        return
     bo = buffer_oracle(c, p)
     if bo:
         rep.violation("buffer/rejection bound broken on %s: %s" % (impl_line(c)[:300], bo), replay)
